@@ -91,7 +91,9 @@ Inductive cmd :=
 | CTimeoutClose
 | CDrain                             (* every queued dissolver job whose lock is free starts *)
 | COtherAdd (c : ch) (b : bool)
-| COtherRem (c : ch).
+| COtherRem (c : ch)
+| CNoModel.                         (* marker: the schedule uses features outside the model (connect-time
+                                      subscriptions, keyed tracking); only the oracle judges the case *)
 
 Definition at_gate (ar : gk -> bool) (s : st) (t : tid) : bool :=
   match thr s t with Some th => parks ar s th | None => false end.
@@ -184,6 +186,7 @@ Definition do_cmd (rot : bool) (ar : gk -> bool) (se : st * list ch) (c : cmd) :
   | CDrain => Some (settle_e rounds rot ar s (jobs s))
   | COtherAdd c b => fin (other_add s c b)
   | COtherRem c => fin (other_rem s c)
+  | CNoModel => Some se
   end.
 
 Fixpoint run_cmds_e (rot : bool) (ar : gk -> bool) (se : st * list ch) (cs : list cmd) : option (st * list ch) :=
@@ -263,10 +266,15 @@ Record obs := mkObs {
   ob_settled : bool;        (* every driver-visible thread finished *)
   ob_panic : bool;
   ob_drained : bool;        (* the run ended with a drain: no dissolver job is left *)
-  ob_snaps : list (list snap)
+  ob_snaps : list (list snap);
+  ob_extra : N              (* other per-connection registrations found at the end (tracked keys in the
+                               shared poll manager); 0 except in keyed-tracking cases *)
 }.
 
 Record case := mkCase { cs_armed : list gk; cs_cmds : list cmd; cs_obs : obs }.
+
+Definition no_model (c : case) : bool :=
+  existsb (fun x => match x with CNoModel => true | _ => false end) (cs_cmds c).
 
 Definition status_n (x : status_t) : N := match x with Connecting => 1 | Connected => 2 | Closed => 3 end.
 Definition nsubs (s : st) (c : ch) : N := (match hub s c with Some _ => 1 | None => 0 end) + others s c.
